@@ -28,6 +28,8 @@ type Spec struct {
 	// FirstMbox: the handler is created and prepared for this mailbox first and then pointed at Mbox through its
 	// exported MBoxPath field (one long-lived handler serving several call signs)
 	FirstMbox string `json:"first_mbox,omitempty"`
+	// Msg2 (process_inbound): a second message handed over in the same ProcessInbound call, after Msg
+	Msg2 []byte `json:"msg2,omitempty"`
 }
 
 // Result mirrors cmd/mboxop.Result plus what the parent saw of the process.
